@@ -69,8 +69,21 @@ func (h Handler) HandleIQ(iq stanza.IQ, r xmlstream.TokenReadEncoder, start *xml
 	for iter.Next() {
 		found = true
 		itemStart, r := iter.Current()
-		jstr := itemStart.Attr[0].Value
-		j := jid.MustParse(jstr)
+		// Character data between the items has no start element.
+		if itemStart == nil {
+			continue
+		}
+		var jstr string
+		for _, attr := range itemStart.Attr {
+			if attr.Name.Local == "jid" {
+				jstr = attr.Value
+				break
+			}
+		}
+		j, err := jid.Parse(jstr)
+		if err != nil {
+			return err
+		}
 		switch start.Name.Local {
 		case "block":
 			item := Item{}
